@@ -105,7 +105,7 @@ def w_general(seeds):
     for seed in seeds:
         Node.store.clear()
         rnd = random.Random(seed)
-        root = rtree(rnd, rnd.randint(1, 25))
+        root = rtree(rnd, 320 if seed % 100 == 99 else rnd.randint(1, 25))       # now and then a big tree (wide and deep parts)
         t = xmlobs.tree_proj(root)
         desc = {"exporter": "metapype_io.to_xml", "seed": seed}
         try:
@@ -130,7 +130,7 @@ def w_eml(seeds):
     for seed in seeds:
         Node.store.clear()
         rnd = random.Random(seed)
-        root = rtree(rnd, rnd.randint(1, 25), eml=True)
+        root = rtree(rnd, 320 if seed % 100 == 99 else rnd.randint(1, 25), eml=True)
         t = xmlobs.tree_proj(root)
         desc = {"exporter": "export.to_xml", "seed": seed}
         try:
